@@ -10,9 +10,10 @@ from typing import Any
 import numpy as np
 
 
-def _request(idx: int, size: str):
+def _request(idx: int, size: str, loc: str = "top"):
     """A callable with parameters that identify the export (values depend on idx)."""
     import jax.numpy as jnp
+    from jax import lax
 
     if size == "large":
         w = ((np.arange(600 * 500) % 977).astype(np.float32) / 977.0 + idx).reshape(600, 500)   # 1.2 MB
@@ -22,32 +23,55 @@ def _request(idx: int, size: str):
         w = ((np.arange(40 * 30) % 97).astype(np.float32) / 97.0 + idx).reshape(40, 30)
     b = np.float32(idx) / 8.0
 
+    if loc == "body":
+        # the big parameter is only used inside a Loop body (it becomes an initializer of the body graph)
+        wsq = ((np.arange(600 * 600) % 977).astype(np.float32) / 977.0 / 600.0 + idx / 600.0).reshape(600, 600)   # 1.44 MB
+
+        def fn_body(x):
+            return lax.fori_loop(0, 1, lambda i, c: jnp.dot(c, wsq) + b, x)
+
+        return fn_body, [(2, 600)], wsq
+
     def fn(x):
         return jnp.dot(x, w) + b
 
     return fn, [(2, w.shape[0])], w
 
 
+def _graphs(g):
+    import onnx
+
+    yield g
+    for nd in g.node:
+        for a in nd.attribute:
+            if a.type == onnx.AttributeProto.GRAPH:
+                yield from _graphs(a.g)
+            elif a.type == onnx.AttributeProto.GRAPHS:
+                for sg in a.graphs:
+                    yield from _graphs(sg)
+
+
 def _init_bytes(model) -> dict[str, bytes]:
+    """Payload of every initializer, body graphs included (models must be loaded WITH external data)."""
     from onnx import numpy_helper as onh
 
-    return {i.name: onh.to_array(i).tobytes() for i in model.graph.initializer}
+    out = {}
+    for gi, g in enumerate(_graphs(model.graph)):
+        for i in g.initializer:
+            out[f"{gi}:{i.name}"] = onh.to_array(i).tobytes()
+    return out
 
 
 def _strip(model):
-    """Graph structure without tensor payload / data location."""
+    """Graph structure without tensor payload / data location (all graphs)."""
     import onnx
 
     m = onnx.ModelProto()
     m.CopyFrom(model)
-    for i in m.graph.initializer:
-        i.ClearField("raw_data")
-        i.ClearField("external_data")
-        i.ClearField("data_location")
-        i.ClearField("float_data")
-        i.ClearField("int32_data")
-        i.ClearField("int64_data")
-        i.ClearField("double_data")
+    for g in _graphs(m.graph):
+        for i in g.initializer:
+            for fld in ("raw_data", "external_data", "data_location", "float_data", "int32_data", "int64_data", "double_data"):
+                i.ClearField(fld)
     return m.SerializeToString(deterministic=True)
 
 
@@ -64,17 +88,31 @@ def run_sequences(seqs: list[dict[str, Any]]) -> list[dict[str, Any]]:
         path = os.path.join(tmp, "sub", "model.onnx")
         rec: dict[str, Any] = {"i": si, "problems": [], "steps": []}
         try:
-            for k, (mode, size) in enumerate(seq["hist"], start=1):
-                fn, specs, w = _request(k, size)
+            for k, h in enumerate(seq["hist"], start=1):
+                mode, size = h[0], h[1]
+                loc = h[2] if len(h) > 2 else "top"
+                spell = h[3] if len(h) > 3 else "canonical"
+                fn, specs, w = _request(k, size, loc)
                 x = ((np.arange(2 * w.shape[0]) % 13 - 6) / 8.0).reshape(2, w.shape[0]).astype(np.float32)
-                ret = jax2onnx.to_onnx(fn, specs, return_mode="file", output_path=path, export_mode=mode)
-                step: dict[str, Any] = {"k": k, "mode": mode, "size": size}
+                mode_arg = mode if spell == "canonical" else (" " + mode.upper() + " " if k % 2 else mode.capitalize())
+                ret = jax2onnx.to_onnx(fn, specs, return_mode="file", output_path=path, export_mode=mode_arg)
+                step: dict[str, Any] = {"k": k, "mode": mode_arg, "size": size, "loc": loc}
                 if ret != path:
                     rec["problems"].append(f"step {k}: returned path {ret!r}")
                 files = sorted(os.listdir(os.path.dirname(path)))
                 step["files"] = files
                 raw = onnx.load(path, load_external_data=False)
-                ext = any(t.data_location == onnx.TensorProto.EXTERNAL or len(t.external_data) > 0 for t in raw.graph.initializer)
+                def _all_inits(g):
+                    yield from g.initializer
+                    for nd in g.node:
+                        for a in nd.attribute:
+                            if a.type == onnx.AttributeProto.GRAPH:
+                                yield from _all_inits(a.g)
+                            elif a.type == onnx.AttributeProto.GRAPHS:
+                                for sg in a.graphs:
+                                    yield from _all_inits(sg)
+
+                ext = any(t.data_location == onnx.TensorProto.EXTERNAL or len(t.external_data) > 0 for t in _all_inits(raw.graph))
                 step["ext"] = ext
                 step["sidecar"] = os.path.exists(path + ".data")
                 if mode == "web":
@@ -118,7 +156,7 @@ def run_sequences(seqs: list[dict[str, Any]]) -> list[dict[str, Any]]:
                 rec["steps"].append(step)
             # final state vs specification (edge cases leave ext free)
             last = rec["steps"][-1] if rec["steps"] else None
-            if last is not None and all(s != "edge" for _, s in seq["hist"]):
+            if last is not None and all(h_[1] != "edge" for h_ in seq["hist"]):
                 if last["ext"] != seq["ext"]:
                     rec["problems"].append(f"final file external-data state {last['ext']} vs specification {seq['ext']}")
                 if last["sidecar"] != seq["sidecar"] and not seq["sidecar"]:
